@@ -493,8 +493,19 @@ func c09Wire(r *Run) {
 			neverAnswer = 1
 		}
 	}
-	// mixed mode: some sends carry caller-chosen ids above N (never colliding with a managed id)
+	// mixed mode: some sends carry caller-chosen ids above N or below 0 (never colliding with a managed id)
 	mixed := !bigBurst && T.Bool("mixed", 0.25)
+	// overflow mode (DSE): some answers are streams of pages longer than MaxPending (4) sent to requests
+	// whose sender is not reading yet; such a request fails, but its id stays unanswered on the wire until
+	// the peer has sent the last page and must not be handed out before
+	overflowMode := !bigBurst && v.IsDse() && T.Bool("pages.overflow", 0.35)
+	if overflowMode {
+		// few ids (a freed id comes round again soon), several senders that keep sending while pages stream
+		N = 1 + T.Draw("overflow.N", 3)
+		K = 2 + T.Draw("overflow.senders", 3)
+		M = 3 + T.Draw("overflow.requests", 4)
+	}
+	r.Config["overflowMode"] = fmt.Sprint(overflowMode)
 	r.Config["timeoutMode"] = fmt.Sprint(timeoutMode)
 	r.Config["mixed"] = fmt.Sprint(mixed)
 	r.Config["version"] = v.String()
@@ -585,6 +596,17 @@ func c09Wire(r *Run) {
 		held := 0
 		heldTotal := 0
 		latePending := 0
+		// several peer tasks answer on one connection: one envelope batch at a time (a write can block
+		// half-way on a small link, and tasks switch there)
+		writing := false
+		sendExclusive := func(envs [][]byte) error {
+			for writing {
+				r.Sleep(time.Millisecond)
+			}
+			writing = true
+			defer func() { writing = false }()
+			return peer.SendEnvelopes(envs)
+		}
 		r.Go("peer.answer", func() {
 			defer pwg.Done()
 			for {
@@ -604,7 +626,7 @@ func c09Wire(r *Run) {
 					mu.Unlock()
 					for _, f := range rest {
 						delete(unanswered, f.H.Stream)
-						_ = peer.SendEnvelopes([][]byte{peer.Envelope(true, 0, f.H.Stream, ROpResult, RBodyResultVoid(), false)})
+						_ = sendExclusive([][]byte{peer.Envelope(true, 0, f.H.Stream, ROpResult, RBodyResultVoid(), false)})
 						r.Yield("peer.flush")
 					}
 					if ended {
@@ -642,8 +664,38 @@ func c09Wire(r *Run) {
 						r.Sleep(d)
 						delete(unanswered, f.H.Stream)
 						wireLog = append(wireLog, fmt.Sprintf("late answer id=%d", f.H.Stream))
-						_ = peer.SendEnvelopes([][]byte{peer.Envelope(true, 0, f.H.Stream, ROpResult, RBodyResultVoid(), false)})
+						_ = sendExclusive([][]byte{peer.Envelope(true, 0, f.H.Stream, ROpResult, RBodyResultVoid(), false)})
 						r.Yield("peer.late.sent")
+					})
+					continue
+				}
+				if overflowMode && T.Bool("peer.pages", 0.6) {
+					f := pending[k]
+					pending = append(pending[:k], pending[k+1:]...)
+					mu.Unlock()
+					pages := 6 + T.Draw("peer.npages", 6)
+					gap := ms(5 + T.Draw("peer.pagegap", 40))
+					r.Probes["paged_answers_longer_than_max_pending"]++
+					pwg.Add(1)
+					latePending++
+					r.Go("peer.pages", func() {
+						defer pwg.Done()
+						defer func() { latePending-- }()
+						for pg := 1; pg <= pages; pg++ {
+							last := pg == pages
+							if last {
+								delete(unanswered, f.H.Stream) // the final page is on the wire from now on
+								wireLog = append(wireLog, fmt.Sprintf("last page id=%d", f.H.Stream))
+							}
+							if err := sendExclusive([][]byte{peer.Envelope(true, 0, f.H.Stream, ROpResult, RBodyResultRows(1, [][][]byte{{[]byte("p")}}, int32(pg), last), false)}); err != nil {
+								delete(unanswered, f.H.Stream)
+								return
+							}
+							r.Yield("peer.page.sent")
+							if !last {
+								r.Sleep(gap)
+							}
+						}
 					})
 					continue
 				}
@@ -653,7 +705,7 @@ func c09Wire(r *Run) {
 				// the response is on the wire from now on: the id may be reused by the client
 				delete(unanswered, f.H.Stream)
 				wireLog = append(wireLog, fmt.Sprintf("answer id=%d", f.H.Stream))
-				if err := peer.SendEnvelopes([][]byte{peer.Envelope(true, 0, f.H.Stream, ROpResult, RBodyResultVoid(), false)}); err != nil {
+				if err := sendExclusive([][]byte{peer.Envelope(true, 0, f.H.Stream, ROpResult, RBodyResultVoid(), false)}); err != nil {
 					return
 				}
 				r.Yield("peer.answered")
@@ -669,9 +721,13 @@ func c09Wire(r *Run) {
 				var mine []client.InFlightRequest
 				for j := 0; j < M; j++ {
 					senderState[i] = "Send"
+					if overflowMode || T.Bool("sender.paced", 0.2) {
+						// sends spread over time: ids are asked for while earlier answers are still streaming in
+						r.Sleep(ms(T.Draw("sender.pace", 120)))
+					}
 					sid, name := int16(client.ManagedStreamId), fmt.Sprintf("q%d.%d", i, j)
 					if mixed && T.Bool("mixed.explicit", 0.4) {
-						sid, name = int16(N+1+T.Draw("k.high", 3)), fmt.Sprintf("x%d.%d", i, j)
+						sid, name = []int16{int16(N + 1), int16(N + 2), int16(N + 3), -2, -3, -128}[T.Draw("k.explicit", 6)], fmt.Sprintf("x%d.%d", i, j)
 					}
 					req, err := cc.Send(queryFrame(v, sid, name))
 					r.Yield("sender.sent")
@@ -682,12 +738,12 @@ func c09Wire(r *Run) {
 					}
 					accepted++
 					mine = append(mine, req)
-					if T.Bool("sender.wait", 0.5) {
+					if T.Bool("sender.wait", 0.5) && !(overflowMode && T.Bool("sender.lazy", 0.6)) {
 						senderState[i] = "Receive"
 						f, err := cc.Receive(req)
 						r.Yield("sender.recv")
 						if f == nil || err != nil {
-							if timeoutMode {
+							if timeoutMode || overflowMode {
 								timedOut++
 							} else {
 								unansweredByPeer++
@@ -703,7 +759,7 @@ func c09Wire(r *Run) {
 					f, err := cc.Receive(req)
 					r.Yield("sender.recv.rest")
 					if f == nil || err != nil {
-						if timeoutMode {
+						if timeoutMode || overflowMode {
 							timedOut++
 						} else {
 							unansweredByPeer++
@@ -773,7 +829,7 @@ func c09Wire(r *Run) {
 			}
 			accepted += 2 * N
 		}
-		if timeoutMode {
+		if timeoutMode || overflowMode {
 			// requests that timed out are answered late, from tasks of their own: wait until the peer has
 			// answered everything and the answers have crossed the link
 			for k := 0; k < 400 && (latePending > 0 || len(unanswered) > 0); k++ {
